@@ -64,6 +64,10 @@ func c06Addr(r *sim.Rand, tok, field string, n int) AddrSpec {
 	if r.Chance(1, 10) {
 		local = fmt.Sprintf("%s.ü-%s-%d", field, tok, n)
 	}
+	if r.Chance(1, 10) {
+		// quoted-string local parts with the two characters that need a quoted-pair
+		local = fmt.Sprintf("%s%s%s-%d", field, sim.Pick(r, []string{`\\`, `\\x`, `"`, `\\"`, `a\\b c`}), tok, n)
+	}
 	return AddrSpec{Name: sim.Pick(r, c06Names), Local: local, Domain: sim.Pick(r, []string{"dest.example", "other.example", "sub.dest.example"})}
 }
 
